@@ -191,6 +191,14 @@ def c10(tier):
     return q + [_ob("H-cluster/3", "harness.h_cluster", "h_cluster", dict(handles=3, steps=4), **_HO)]
 
 
+def c11(tier):
+    q = [_ob("H-fault", "harness.h_fault", "h_fault", dict(shapes=["indep2", "chain3"], later_attempts=1), **_HO)]
+    if tier == "quick":
+        return q
+    return q + [_ob("H-fault/wide", "harness.h_fault", "h_fault", dict(shapes=["indep3", "fork3"], maxns=[None, 1], later_attempts=2),
+                    **_HO)]
+
+
 def obligations(prop, tier):
     table = {
         "C01": lambda t: k_batch(t) + k_queue(t) + h_submit(t),
@@ -203,6 +211,7 @@ def obligations(prop, tier):
         "C08": c08,
         "C09": h_submit,
         "C10": lambda t: c10(t) + [o for o in c13(t) if o["name"].startswith("H-resubmit")][:1],
+        "C11": c11,
         "C12": h_lost,
         "C13": c13,
         "C14": c14,
